@@ -1284,6 +1284,11 @@ def _is_simple_init(e, allow_self=False, mut_roots=None):
             return False
         if k == "Path" and path_segs(n) == ["self"] and not allow_self:
             return False
+        if k == "Call":
+            # only constructor-like calls are values: `Some(x)`, `Interval::new(a, b)`, `T::from(x)`
+            segs = path_segs(n["func"]) or []
+            if not segs or not (segs[-1][:1].isupper() or segs[-1] in ("new", "from", "default", "identity", "zeros", "splat", "from_le_bytes", "from_bits", "try_from")):
+                return False
         if k == "MethodCall" and n["method"] not in _SIMPLE_METHODS:
             if mut_roots is None or n["method"] in _IMPURE_METHODS or n["method"].startswith(("set_", "push_", "insert_", "remove_", "take_", "reset_", "update_", "add_")):
                 return False
